@@ -14,23 +14,102 @@ def RTArg (sym : Bool) (a : TArg) : Prop :=
 
 theorem posOk_top : PosOk topPrec topSide := Or.inl (by decide)
 
-/-- an expression whose first token starts no type -/
+theorem posOk_eot : PosOk eotExprPrec eotExprSide := Or.inl (by decide)
+
+theorem needParen_false_le {p outer : Nat} {side : Side} (h : needParen p outer side = false) : p ≤ outer := by
+  unfold needParen at h
+  split at h
+  · cases h
+  · omega
+
+/-- an expression-or-type position parenthesises the shift operators and everything that binds less tightly (e8e0be6):
+what is printed bare has a precedence below the one of the shift operators -/
+theorem eot_bare_prec {p : Nat} (h : needParen p eotExprPrec eotExprSide = false) : p ≤ 6 := by
+  have h7 := needParen_false_le h
+  have h7' : p ≤ 7 := h7
+  rcases Nat.lt_or_ge p 7 with hlt | hge
+  · omega
+  · have : p = 7 := by omega
+    subst this
+    revert h; decide
+
+/-- **the point of e8e0be6**: a tree whose top node binds tighter than the shift operators exposes none of `>`, `>=`, `>>`,
+`,` outside parentheses / brackets — every operand that is printed bare binds at least as tightly as its parent -/
+theorem gtFree_of_prec : (x : XExpr) → x.prec ≤ 6 → gtFree x = true
+  | .lit _, _ => by simp [gtFree]
+  | .id _, _ => by simp [gtFree]
+  | .un op x, h => by
+    simp only [gtFree, gtFreeSub, Bool.or_eq_true]
+    cases hp : needParen x.prec (unPrec op) (if isPostfix op then postfixOperandSide else prefixOperandSide) with
+    | true => exact Or.inl rfl
+    | false =>
+      right
+      have h1 := needParen_false_le hp
+      have h2 : unPrec op ≤ 3 := by cases op <;> decide
+      exact gtFree_of_prec x (by omega)
+  | .bin op l r, h => by
+    have hop : gtOp op = false := by cases op <;> simp [XExpr.prec, binPrec] at h <;> rfl
+    have hb : binPrec op ≤ 6 := h
+    simp only [gtFree, gtFreeSub, hop, Bool.not_false, Bool.true_and, Bool.and_eq_true, Bool.or_eq_true]
+    refine ⟨?_, ?_⟩
+    · cases hp : needParen l.prec (binPrec op) binLeftSide with
+      | true => exact Or.inl rfl
+      | false => exact Or.inr (gtFree_of_prec l (by have := needParen_false_le hp; omega))
+    · cases hp : needParen r.prec (binPrec op) binRightSide with
+      | true => exact Or.inl rfl
+      | false => exact Or.inr (gtFree_of_prec r (by have := needParen_false_le hp; omega))
+  | .tern _ _ _, h => by simp [XExpr.prec, precTernaryConditional] at h
+  | .sub o _, _ => by
+    simp only [gtFree, gtFreeSub, Bool.or_eq_true]
+    cases hp : needParen o.prec precArraySubscript subObjectSide with
+    | true => exact Or.inl rfl
+    | false => exact Or.inr (gtFree_of_prec o (by have := needParen_false_le hp; simp [precArraySubscript] at this; omega))
+  | .mem o _, _ => by
+    simp only [gtFree, gtFreeSub, Bool.or_eq_true]
+    cases hp : needParen o.prec precMember memObjectSide with
+    | true => exact Or.inl rfl
+    | false => exact Or.inr (gtFree_of_prec o (by have := needParen_false_le hp; simp [precMember] at this; omega))
+  | .call f _ _, _ => by
+    simp only [gtFree, gtFreeSub, Bool.or_eq_true]
+    cases hp : needParen f.prec callObjectPrec callObjectSide with
+    | true => exact Or.inl rfl
+    | false => exact Or.inr (gtFree_of_prec f (by have := needParen_false_le hp; simp [callObjectPrec] at this; omega))
+  | .cast _ x, _ => by
+    simp only [gtFree, gtFreeSub, Bool.or_eq_true]
+    cases hp : needParen x.prec precCast castOperandSide with
+    | true => exact Or.inl rfl
+    | false => exact Or.inr (gtFree_of_prec x (by have := needParen_false_le hp; simp [precCast] at this; omega))
+  | .sizeof _, _ => by simp [gtFree]
+
+/-- what is printed bare in an expression-or-type position is produced below the shift level of the parser -/
+theorem pos_eot (x : XExpr) (h : needParen x.prec eotExprPrec eotExprSide = false) : x.lvl ≤ 4 := by
+  cases x with
+  | lit l => simp only [XExpr.prec, XExpr.lvl, litPrec] at h ⊢ <;> generalize litNegative l = b at h ⊢ <;> cases b <;> revert h <;> decide
+  | un o _ => cases o <;> simp only [XExpr.prec, XExpr.lvl] at h ⊢ <;> revert h <;> decide
+  | bin o _ _ => cases o <;> simp only [XExpr.prec, XExpr.lvl] at h ⊢ <;> revert h <;> decide
+  | _ => simp only [XExpr.prec, XExpr.lvl] at h ⊢ <;> revert h <;> decide
+
+/-- an expression in an expression-or-type position: printed under `(eotExprPrec, eotExprSide)` — bare when it binds
+tighter than the shift operators (then nothing in it is misread under `Terminator::TypeList`), in parentheses otherwise
+(then it is read under `Standard`) — and its first token starts no type -/
 theorem rtArg_e (sym : Bool) (x : XExpr) (hw : WFArg W sym (.e x)) (ihx : RT W x) : RTArg W sym (.e x) := by
   intro rest hrest hsafe
-  obtain ⟨hwx, hgt, hlvl, hlt, hhead⟩ := hw
+  obtain ⟨hwx, hhead⟩ := hw
   obtain ⟨t0, r0, rfl, hcl⟩ := tyRest_closes hrest
-  have htoks : toks (fmtEOT (.e x) true) = toks (fmtBodyX x) := rfl
-  rw [htoks]
-  have hP : Parses W 15 .TypeList (toks (fmtBodyX x) ++ t0 :: r0) (x, t0 :: r0) :=
-    ihx 15 .TypeList _ _ (fun _ => hgt) (lvl_le x) (Nat.le_refl _) (fun h => by omega)
-      (noLow_closes W 15 _ _ _ hcl) (fun h => by rw [hlt] at h; cases h)
-      (fin_self W x x.lvl 15 .TypeList _ (lvl_le x) (fun _ => inert_closes W 15 _ _ _ hcl))
-  obtain ⟨t, ts', h1, _, _⟩ := head_fmt W x hwx topPrec topSide posOk_top
-  have h1' : toks (fmtBodyX x) = t :: ts' := h1
-  have hty : ∀ f, parseTyId W f sym (toks (fmtBodyX x) ++ t0 :: r0) = none := by
+  have htoks : toks (fmtEOT (.e x) true) = toks (fmtSubX x eotExprPrec eotExprSide) := rfl
+  rw [htoks] at hsafe ⊢
+  have hP : Parses W 15 .TypeList (toks (fmtSubX x eotExprPrec eotExprSide) ++ t0 :: r0) (x, t0 :: r0) :=
+    rts_self W ihx _ _ 15 .TypeList _ (Nat.le_refl _)
+      (fun hp => ⟨lvl_le x, fun h => by have := pos_eot x hp; omega,
+        fun _ => gtFree_of_prec x (eot_bare_prec hp)⟩)
+      (fun hp => parenDead W x hwx (needParen_prec posOk_eot hp) _)
+      (fun hl => hsafe (by simpa [hasLtArg] using hl))
+      (noLow_closes W 15 _ _ _ hcl) (fun _ => inert_closes W 15 _ _ _ hcl)
+  obtain ⟨t, ts', h1, _, _⟩ := head_fmt W x hwx eotExprPrec eotExprSide posOk_eot
+  have hty : ∀ f, parseTyId W f sym (toks (fmtSubX x eotExprPrec eotExprSide) ++ t0 :: r0) = none := by
     intro f
-    rw [h1']
-    obtain ⟨hstop, hid⟩ := tyHeadDead_of_B W sym t ts' (by rw [← h1']; exact hhead)
+    rw [h1]
+    obtain ⟨hstop, hid⟩ := tyHeadDead_of_B W sym t ts' (by rw [← h1]; exact hhead)
     cases t with
     | id n =>
       obtain ⟨rfl, hn⟩ := hid n rfl
@@ -162,7 +241,7 @@ theorem eot_head (sym : Bool) (a : TArg) (hw : WFArg W sym a) :
     ∃ t r, toks (fmtEOT a true) = t :: r ∧ t.isGt = false := by
   cases a with
   | e x =>
-    obtain ⟨t, ts', h1, h2, _⟩ := head_fmt W x hw.1 topPrec topSide posOk_top
+    obtain ⟨t, ts', h1, h2, _⟩ := head_fmt W x hw.1 eotExprPrec eotExprSide posOk_eot
     exact ⟨t, ts', h1, h2.1.2.2⟩
   | both x t =>
     obtain ⟨n, rfl, rfl, _⟩ := hw
